@@ -331,15 +331,20 @@ class Check(core.CheckBase):  # pylint: disable=too-many-instance-attributes
             snapshot = list(vector._items)  # pylint: disable=protected-access
             Recorder.events = []
             raised = None
+            # the argument of bulk edits in the shapes a caller may pass: any iterable, also a one-shot one
+            shape = rng.choice(('list', 'list', 'tuple', 'generator', 'iterator'))
+            given = {'list': list, 'tuple': tuple, 'generator': lambda seq: (entry for entry in seq), 'iterator': iter}[shape](many)
+            if op in ('extend', 'iadd', 'set-slice'):
+                self.stats['bulk_argument_' + shape] += 1
             try:
                 if op == 'append':
                     vector.append(item)
                 elif op == 'insert':
                     vector.insert(position, item)
                 elif op == 'extend':
-                    vector.extend(many)
+                    vector.extend(given)
                 elif op == 'iadd':
-                    vector += many
+                    vector += given
                 elif op == 'pop':
                     vector.pop()
                 elif op == 'pop-index':
@@ -353,7 +358,7 @@ class Check(core.CheckBase):  # pylint: disable=too-many-instance-attributes
                 elif op == 'set-index':
                     vector[position] = item
                 elif op == 'set-slice':
-                    vector[slice_] = many
+                    vector[slice_] = given
                 elif op == 'reverse':
                     vector.reverse()
                 elif op == 'clear':
